@@ -111,6 +111,8 @@ func PendingDepositsType(spec *Spec) ListTypeDef {
 }
 
 func (li *PendingDeposits) Deserialize(spec *Spec, dr *codec.DecodingReader) error {
+	// decode into a recycled object: drop what it holds (dr.List appends)
+	*li = (*li)[:0]
 	return dr.List(func() codec.Deserializable {
 		i := len(*li)
 		*li = append(*li, PendingDeposit{})
@@ -149,6 +151,8 @@ func PendingPartialWithdrawalsType(spec *Spec) ListTypeDef {
 }
 
 func (li *PendingPartialWithdrawals) Deserialize(spec *Spec, dr *codec.DecodingReader) error {
+	// decode into a recycled object: drop what it holds (dr.List appends)
+	*li = (*li)[:0]
 	return dr.List(func() codec.Deserializable {
 		i := len(*li)
 		*li = append(*li, PendingPartialWithdrawal{})
@@ -187,6 +191,8 @@ func PendingConsolidationsType(spec *Spec) ListTypeDef {
 }
 
 func (li *PendingConsolidations) Deserialize(spec *Spec, dr *codec.DecodingReader) error {
+	// decode into a recycled object: drop what it holds (dr.List appends)
+	*li = (*li)[:0]
 	return dr.List(func() codec.Deserializable {
 		i := len(*li)
 		*li = append(*li, PendingConsolidation{})
